@@ -20,7 +20,7 @@ RULE = ("one run = GFA1 graph with count tags + scheduled delivery + one multipl
         "names); post-state checked; distinct = distinct (neighbourhood digest, factor, policy) tuples")
 PROBES = ["factor0", "factor1", "negative", "factor_ge2", "self_link", "parallel_links", "containment",
           "given_names", "auto_names_collision", "name_with_star", "distribute_L", "distribute_R",
-          "distribute_auto", "distribute_equal", "counts_divided", "id_tagged_edge"]
+          "distribute_auto", "distribute_equal", "counts_divided", "id_tagged_edge", "gfa2_graph"]
 
 
 def gen(streams, tier, i):
@@ -30,8 +30,17 @@ def gen(streams, tier, i):
               "max_path": 0, "p_counts": 0.7, "p_self": cfg.choice([0.0, 0.2, 0.4]), "overlap": cfg.choice(["match", "star", "mixed"]),
               "p_link_id": cfg.choice([0.0, 0.3]), "max_hdr": 0, "max_comment": 0, "p_tags": 0.3, "self_cont": True,
               "names": cfg.choice(["alpha", "alpha", "weird"])})
-    doc = G.gen_gfa1(streams.get("document"), k)
+    version = cfg.choice(["gfa1", "gfa1", "gfa2"])
+    if version == "gfa2":
+        k.update({"max_edge": cfg.choice([3, 6, 9]), "max_gap": 1, "max_frag": 1, "max_ogroup": 0, "max_ugroup": 0,
+                  "max_custom": 0, "etypes": ["dovetail", "dovetail", "cont", "internal"], "p_eid": cfg.choice([0.0, 0.6])})
+    doc = G.gen_doc(streams.get("document"), k, version)
     lines = doc["lines"]
+    if version == "gfa2":
+        # count tags on some edges
+        dr2 = streams.get("document2")
+        lines = [ln + ("\t%s:i:%d" % (dr2.choice(["RC", "FC", "KC"]), dr2.randint(0, 200))
+                       if (ln.startswith("E\t") and dr2.random() < 0.5) else "") for ln in lines]
     sr = streams.get("schedule")
     order, mode = hist.schedule(sr, lines)
     hr = streams.get("history")
@@ -45,19 +54,33 @@ def gen(streams, tier, i):
     extra = []
     if hr.random() < 0.3:
         # automatic names that collide with existing segments
-        extra.append("S\t%s*2\t*" % seg)
-    ops = [{"op": "new", "vlevel": cfg.choice([0, 1, 1, 2, 3]), "version": "gfa1"}]
+        extra.append("S\t%s*2\t*" % seg if version == "gfa1" else "S\t%s*2\t5\t*" % seg)
+    ops = [{"op": "new", "vlevel": cfg.choice([0, 1, 1, 2, 3]), "version": version}]
     for ln in order + extra:
         ops.append({"op": "add", "line": ln, "as": "str"})
     ops.append({"op": "multiply", "seg": seg, "factor": factor, "distribute": distribute, "copy_names": copy_names,
                 "by": hr.choice(["name", "line"])})
-    return {"cfg": {"order": mode}, "ops": ops}
+    return {"cfg": {"order": mode, "version": version}, "ops": ops}
 
 
-def parse(lines):
+def parse(lines, version="gfa1"):
+    """-> S: name -> ['S', name, sequence, tags...]; E: edge tuples shaped like GFA1 lines
+    ['L'|'C'|'I', a, oa, b, ob, (pos,) detail, tags...] (for GFA2 'detail' holds the intervals and alignment)"""
     S, E = {}, []
     for ln in lines:
         f = ln.split("\t")
+        if version == "gfa2":
+            if f[0] == "S":
+                S[f[1]] = ["S", f[1], f[3] + "/" + f[2]] + f[4:]
+            elif f[0] == "E":
+                from ..model import classify_edge
+                t, k1, k2 = classify_edge(f[2][-1], f[4], f[5], f[3][-1], f[6], f[7])
+                kind = {"dovetail": "L", "containment": "C", "internal": "I"}[t]
+                detail = "|".join(f[4:9])
+                # (the edge identifier is not part of the edge's identity here: copies get none)
+                E.append([kind, f[2][:-1], f[2][-1], f[3][:-1], f[3][-1]] + (["0"] if kind == "C" else []) + [detail] + f[9:] +
+                         (["k1=" + k1, "k2=" + k2]))
+            continue
         if f[0] == "S":
             S[f[1]] = f
         elif f[0] in ("L", "C"):
@@ -68,12 +91,12 @@ def parse(lines):
 def edge_key(f, rename=None):
     """canonical key of an L/C line without count tags and ID; rename: dict old->new"""
     r = rename or {}
-    npos = 5 if f[0] == "L" else 6
+    npos = 6 if f[0] == "C" else 5
     pos = list(f[1:1 + npos])
     pos[0] = r.get(pos[0], pos[0])
     pos[2] = r.get(pos[2], pos[2])
-    tags = sorted(t for t in f[1 + npos:] if t[:2] not in ("RC", "FC", "KC", "ID"))
-    if f[0] == "L":
+    tags = sorted(t for t in f[1 + npos:] if t[:2] not in ("RC", "FC", "KC", "ID") and not t.startswith(("k1=", "k2=")))
+    if f[0] == "L" and "|" not in pos[4]:
         a, b = gtext.link_forms(pos)
         pos = list(min(a, b))
     return tuple([f[0]] + pos + tags)
@@ -99,11 +122,13 @@ def run(scn, st):
         seg, k = op["seg"], op["factor"]
         if g.segment(seg) is None:
             return
+        version = scn["cfg"].get("version", "gfa1")
         pre_lines = ob.text_lines(g)
         pre_obs = ob.observe(g)
-        S0, E0 = parse(pre_lines)
-        mine = [f for f in E0 if f[1] == seg or f[3] == seg]
-        others = [f for f in E0 if not (f[1] == seg or f[3] == seg)]
+        S0, E0 = parse(pre_lines, version)
+        # internal alignments are neither dovetails nor containments: they stay with the original only
+        mine = [f for f in E0 if (f[1] == seg or f[3] == seg) and f[0] != "I"]
+        others = [f for f in E0 if not (f[1] == seg or f[3] == seg) or f[0] == "I"]
         if any(f[1] == f[3] == seg for f in mine):
             st.count("probe.self_link")
         if any(f[0] == "C" for f in mine):
@@ -145,11 +170,11 @@ def run(scn, st):
             continue
         if k == 0:
             st.count("probe.factor0")
-            m = Doc("gfa1", pre_lines)
+            m = Doc(version, pre_lines)
             m.remove([m.by_name(seg)])
-            if gtext.canon_doc(post_lines, "gfa1") != m.canon():
+            if gtext.canon_doc(post_lines, version) != m.canon():
                 raise core.Violation("factor0-not-rm", "multiply by 0 is not the removal of the segment: %r" %
-                                     [x for x in gtext.canon_doc(post_lines, "gfa1") if x not in m.canon()][:3], factor=0)
+                                     [x for x in gtext.canon_doc(post_lines, version) if x not in m.canon()][:3], factor=0)
             continue
         st.count("probe.factor_ge2")
         try:
@@ -157,7 +182,7 @@ def run(scn, st):
             inv.registry_coherent(g)
         except inv.Bad as b:
             raise core.Violation("multiply-broke-graph", "after multiply(%s,%d): %s" % (seg, k, b.detail), clause2=b.clause)
-        S1, E1 = parse(post_lines)
+        S1, E1 = parse(post_lines, version)
         new = sorted(set(S1) - set(S0))
         if len(new) != k - 1:
             raise core.Violation("copies-count", "multiply(%s,%d): new segments %r" % (seg, k, new), factor=min(k, 2))
@@ -165,6 +190,8 @@ def run(scn, st):
             raise core.Violation("copy-names", "requested names %r, got %r" % (op["copy_names"], new))
         if op["copy_names"] is None and any(n in S0 for n in new):
             raise core.Violation("copy-names-clash", "automatic names %r clash" % new)
+        if version == "gfa2":
+            st.count("probe.gfa2_graph")
         if op["copy_names"] is None and ("%s*2" % seg.split("*")[0]) in S0:
             st.count("probe.auto_names_collision")
         copies = [seg] + new
@@ -196,7 +223,7 @@ def run(scn, st):
         if d in ("L", "R", "auto", "equal"):
             st.count("probe.distribute_" + d)
         for c in copies:
-            got = sorted(edge_key(f) for f in E1 if f[1] == c or f[3] == c)
+            got = sorted(edge_key(f) for f in E1 if (f[1] == c or f[3] == c) and f[0] != "I")
             want_all = sorted(edge_key(f, {seg: c}) for f in mine)
             if d in (None, "off"):
                 if got != want_all:
@@ -212,11 +239,11 @@ def run(scn, st):
             # edge counts divided (edges equal up to their count tags are matched as multisets)
             groups_got, groups_want = {}, {}
             for f in E1:
-                if f[1] == c or f[3] == c:
-                    npos = 5 if f[0] == "L" else 6
+                if (f[1] == c or f[3] == c) and f[0] != "I":
+                    npos = 6 if f[0] == "C" else 5
                     groups_got.setdefault(edge_key(f), []).append(sorted(counts(f, npos).items()))
             for x in mine:
-                npos = 5 if x[0] == "L" else 6
+                npos = 6 if x[0] == "C" else 5
                 groups_want.setdefault(edge_key(x, {seg: c}), []).append(
                     sorted((kk, v // k) for kk, v in counts(x, npos).items()))
             for key, got_counts in groups_got.items():
@@ -237,7 +264,11 @@ def run(scn, st):
             for f in mine:
                 if f[0] != "L" or f[1] == f[3]:
                     continue
-                if f[1] == seg:
+                kk = [t for t in f if t.startswith(("k1=", "k2="))]
+                if kk:
+                    e1, e2 = kk[0][-1], kk[1][-1]
+                    e_mine, nb = (e1, (f[3], e2)) if f[1] == seg else (e2, (f[1], e1))
+                elif f[1] == seg:
                     e_mine = "R" if f[2] == "+" else "L"
                     nb = (f[3], "L" if f[4] == "+" else "R")
                 else:
